@@ -41,8 +41,9 @@ CHECKS: dict[str, tuple[str, str, str, str]] = {
     ),
     "C03": (
         "reference-model monitor: real parses in 4 execution modes compared with an executable reference PEG semantics",
-        "Seeded random well-formed grammars over the core operators and the trivia-free slice of a construct x context matrix are "
-        "loaded by the real front end and run (interpreter, optimized interpreter, both generated modules) on ALL strings over the "
+        "All 342 expression trees of depth <= 2 over the core terminals (a seeded sample of depth 3 in the thorough tier), seeded random "
+        "well-formed grammars over the core operators (a quarter under hostile rule names such as SKIP, class, _x_) and the trivia-free "
+        "slice of a construct x context matrix are loaded by the real front end and run (interpreter, optimized interpreter, both generated modules) on ALL strings over the "
         "grammar's alphabet up to a length bound plus derivation-guided longer inputs; every outcome and tree is compared with "
         "pv/ref/refpeg.py (functional evaluator, immutable state). Held = no disagreement on the cases explored; not a proof.",
         "trusted: pv/ref/refpeg.py as pest's semantics (bounded repetitions evaluated as pest's unrolled sequences); the reference "
@@ -51,7 +52,8 @@ CHECKS: dict[str, tuple[str, str, str, str]] = {
     ),
     "C04": (
         "reference-model monitor: trivia placement, atomicity and pair visibility compared with the reference evaluator in 4 modes",
-        "As C03 with WHITESPACE/COMMENT (silent or not, single- and multi-element bodies, both/one/none) and _ @ $ ! rules nested "
+        "As C03 with WHITESPACE/COMMENT (silent or not, single- and multi-element bodies, bodies that reference other rules, explicit "
+        "references to the trivia rules, both/one/none) and _ @ $ ! rules nested "
         "through rule calls; the full construct x context x modifier x trivia-configuration matrix is sampled (quick) or enumerated "
         "(thorough). Trees are compared, so every trivia pair, every given-back trivia run and every hidden/visible inner pair is judged.",
         "trusted: pv/ref/refpeg.py (skip between sequence elements and inside further iterations of e*, only when non-atomic; "
@@ -60,8 +62,10 @@ CHECKS: dict[str, tuple[str, str, str, str]] = {
     ),
     "C05": (
         "reference-model monitor with immutable stack + online full-copy monitor (T1) on every checkpoint/restore of every parse",
-        "Random grammars and the stack slice of the construct x context matrix mix the seven stack operations with every "
-        "backtracking construct; outcomes and trees in 4 modes are compared with the reference evaluator whose stack is immutable "
+        "Random grammars, seeded stack scenarios, two bounded-exhaustive families (stack-dig: 7 776 grammars that pop below an enclosing "
+        "frame's level inside a committed inner frame; stack-swap: 13 608 grammars that drop old entries, push new ones, look at the whole "
+        "stack and then fail or commit, with targeted inputs) and the stack slice of the construct x context matrix mix the seven stack "
+        "operations with every backtracking construct; outcomes and trees in 4 modes are compared with the reference evaluator whose stack is immutable "
         "(undo is structural). In addition a monitored ParserState shadows every checkpoint with a full copy and checks every restore "
         "and ok of every parse, and no exception other than PestParsingError may escape.",
         "trusted: pv/ref/refpeg.py stack semantics (PEEK/POP/DROP on empty stack fail, failing ops change nothing); abstains on "
@@ -81,8 +85,10 @@ CHECKS: dict[str, tuple[str, str, str, str]] = {
         "differential monitor: optimized (default, single passes, random pipelines) vs unoptimized results computed before any optimizer ran in the process",
         "Random grammars biased to the rewrite patterns and the construct matrix are parsed unoptimized (phase U of each worker process) "
         "and then under the default pipeline and seeded configurations drawn from DEFAULT_OPTIMIZER_PASSES (each pass alone, subsets, "
-        "permutations, repetitions), interpreted and generated; outcome and tree must be equal. The evidence counts how often each pass "
-        "actually rewrote something. Bounded exploration.",
+        "permutations, repetitions, one pass listed six times), interpreted and generated; outcome and tree must be equal. An optimizer-target "
+        "family (12 shapes the passes pattern-match on x ordered pairs of 11 literal-like operands x 3 modifiers x with/without trivia) runs "
+        "under ordered selections of the passes (all 325 in the thorough tier; the evidence lists the selections run). The evidence counts "
+        "how often each pass actually rewrote something. Bounded exploration.",
         "relative property; failure positions are not compared; fresh Optimizer objects per configuration",
         "DESIGN.md 4/C02",
     ),
@@ -97,8 +103,9 @@ CHECKS: dict[str, tuple[str, str, str, str]] = {
     ),
     "C07": (
         "exception-type monitor at the API boundary + logical step budget + repeat-call comparison over a hostile workload",
-        "Hostile workload (stack operations weighted up, every rule as start rule, empty input, all short inputs = all truncations, "
-        "bare stack ops in every context, bundled grammars on truncations and mutants) in 4 modes: anything other than Pairs or "
+        "Hostile workload (stack operations weighted up, counts of zero, zero-width stack repetitions, out-of-range PEEK slices, every rule "
+        "as start rule, empty input, all short inputs = all truncations, bare stack ops in every context, the stack-dig and stack-swap "
+        "families, bundled grammars on truncations and mutants) in 4 modes: anything other than Pairs or "
         "PestParsingError escaping, a step budget of 1000 x reference steps + 1e5 exceeded, or an unequal second call is a violation.",
         "well-formed grammars by construction; deep inputs / RecursionError are abstentions; termination is judged in logical steps",
         "DESIGN.md 4/C07",
@@ -108,7 +115,8 @@ CHECKS: dict[str, tuple[str, str, str, str]] = {
         "Every failure of the engine workload (inputs with newlines and non-ASCII, every start position of short inputs, 4 modes) and of "
         "the bundled grammars on multi-line mutated corpora is checked: furthest_pos in {-1} U [start_pos, len], names are rules or "
         "built-ins, all renderers run, printed line:col and source line are those of the position.",
-        "line breaks are '\\n' only; the sentinel -1 is not judged for line:col",
+        "line:col and source line are accepted under either of two conventions (lines end at '\\n' only, or at every str.splitlines() "
+        "boundary with '\\r\\n' as one break; a scan model written for the check); the sentinel -1 is not judged for line:col",
         "DESIGN.md 4/C13",
     ),
     "C16": (
@@ -133,15 +141,19 @@ CHECKS: dict[str, tuple[str, str, str, str]] = {
         "exception-type and message monitor over exhaustive truncations, pointwise mutations and generated texts",
         "Every prefix of every bundled grammar (stride in quick), prefixes of generated grammars, every single-character edit at "
         "every offset of small grammars, derivations, printed ASTs, mutants, soups and edge texts are loaded with and without the "
-        "optimizer: only Parser or PestGrammarError may come out, str() must render and the printed line:col must exist in the text.",
-        "RecursionError / MemoryError / a 20 s watchdog beyond 2 kB, nesting 40 or counts 64 are abstentions (stated bounds)",
+        "optimizer: only Parser or PestGrammarError may come out, str() must render and the printed line:col must exist in the text. "
+        "Termination is judged in logical steps: more than 20 000 function entries inside pest/ per grammar character + 1e6 (sys.monitoring "
+        "PY_START; honest loads need at most ~2 200 per character) within the stated bounds is a violation.",
+        "RecursionError / MemoryError / a blown step budget / the 60 s wall-clock guard beyond 2 kB, nesting 40 or counts 64 are abstentions (stated bounds)",
         "DESIGN.md 4/C11",
     ),
     "C12": (
         "exhaustive membership sweeps: one parse('r', chr(c)) per code point per mode against set predicates",
         "All 1,114,112 code points x 4 modes for every ASCII built-in, NEWLINE and ANY, and for a family of ranges, literals and "
         "optimizer-merged choices (all fully swept in the thorough tier); Unicode property rules by cross-mode agreement; escapes by "
-        "probing around the decoded value in strings and range bounds; CI literals on ASCII input.",
+        "probing around the decoded value in strings and range bounds; escape SEQUENCES (incl. decoded text that looks like an escape again) in "
+        "plain, CI, PUSH_LITERAL and squashed-choice contexts judged on the decoded text and on every other reading; CI literals, also mixed with "
+        "digits / punctuation inside squashable choices, on ASCII input.",
         "trusted: the set predicates in pv/checks/c12.py; Unicode property rules are compared across modes only",
         "DESIGN.md 4/C12",
     ),
@@ -159,7 +171,9 @@ CHECKS: dict[str, tuple[str, str, str, str]] = {
         "Long seeded histories of parser creation (all optimizer settings), code generation and succeeding/failing parses with an "
         "observed call every third operation, compared with the same call in a fresh interpreter process; and short multi-threaded "
         "runs (8-16 threads on shared objects, 1 us switch interval, seeded sleep(0) on LINE events inside pest and generated frames, "
-        "concurrent builders) compared with the single-threaded baseline. The evidence reports switches and yields actually observed.",
+        "concurrent builders) compared with the single-threaded baseline. Every parse runs under a logical step budget (20 000 checkpoints + rule "
+        "entries; the pool needs < 400), so a history that makes a later call diverge ends as a result that differs from the pristine one. "
+        "The evidence reports switches and yields actually observed.",
         "the fresh-process result is the specification; CPython GIL: byte-code interleavings are sampled, not enumerated",
         "DESIGN.md 4/C15",
     ),
